@@ -58,7 +58,7 @@ func run(t *testing.T, idx int64, r *rand.Rand, kindIdx, cmIdx, amIdx int, exhau
 	expectRefusedAt := true // false: the call must stay blocked (no bound applies)
 	expectGrant := false
 	var busyBefore, busyAfter int
-	synctest.Test(t, func(t *testing.T) {
+	bubble(t, func(t *testing.T) {
 		w := blk.NewWorld(k, 1)
 		var held = w.Hold(0)
 		if exhausted {
@@ -274,4 +274,9 @@ func TestCheck(t *testing.T) {
 		c := cells[int(idx)%len(cells)]
 		run(t, idx, r, c.k, c.c, c.a, c.ex)
 	})
+}
+
+// bubble runs f in a synctest bubble; a bubble that cannot end (goroutines left blocked) is recorded, not fatal.
+func bubble(t *testing.T, f func(*testing.T)) {
+	rt.Bubble(func() { synctest.Test(t, f) }, "C13")
 }
